@@ -60,6 +60,8 @@ type LimitCase struct {
 	// over-limit message and calls NextReader again (the library skips the
 	// rest): the limit applies to what is skipped too.
 	OverAbandon int `json:"over_abandon"`
+	// EOFWith: the transport returns its last bytes together with io.EOF.
+	EOFWith bool `json:"eof_with,omitempty"`
 }
 
 func genLimitCase(t *rapid.T) LimitCase {
@@ -156,6 +158,15 @@ func genLimitCase(t *rapid.T) LimitCase {
 	if rapid.IntRange(0, 3).Draw(t, "over_abandon") == 0 {
 		c.OverAbandon = rapid.IntRange(0, 6).Draw(t, "over_abandon_n")
 	}
+	if rapid.IntRange(0, 9).Draw(t, "huge_limit") == 0 {
+		// limits near the top of the range: everything generated above is within
+		// them; only a length with the top bit set still exceeds them
+		c.L = rapid.SampledFrom([]int64{1<<63 - 1, 1<<63 - 2, 1 << 62, 1<<32 + 1, 1 << 31}).Draw(t, "huge_L")
+		if c.Over != nil {
+			c.Over.Kind, c.Over.Compressed = "topbit", false
+		}
+	}
+	c.EOFWith = rapid.Bool().Draw(t, "eof_with_last_bytes")
 	return c
 }
 
@@ -253,7 +264,8 @@ func checkC06(c LimitCase, o *Obs) error {
 		}
 		switch ov.Kind {
 		case "withinbig":
-			claim = uint64(1) << uint(27+len(ov.Pre))
+			// 2^27 .. 2^39: also lengths that do not fit in 31 or 32 bits
+			claim = uint64(1) << []uint{27, 28, 29, 31, 32, 39}[(len(ov.Pre)+ov.PartN)%6]
 			withinBig = true
 		case "double":
 			claim = uint64(2 * L)
@@ -311,6 +323,12 @@ func checkC06(c LimitCase, o *Obs) error {
 	conn.SetReadLimit(L)
 	tr.SetInput(wire, c.Chunks)
 	tr.EndErr = xport.ErrInjected
+	if c.EOFWith {
+		// the stream ends the way a TLS connection may: last bytes and io.EOF in
+		// one Read (an error of another kind together with the last bytes is
+		// C05's subject)
+		tr.EOFWithData, tr.EndErr = true, nil
+	}
 	h := &handlerLog{failAt: -1}
 	if c.ReLimit && (c.Over == nil || c.Over.Kind != "withinbig") {
 		h.onPing = func() { conn.SetReadLimit(L) }
@@ -427,7 +445,7 @@ func checkC06(c LimitCase, o *Obs) error {
 				}
 				break
 			}
-			if len(got) > len(overDelivered)+int(L)+8192 {
+			if cap := min(L, 1<<20); len(got) > len(overDelivered)+int(cap)+8192 {
 				rerr = errors.New("harness: runaway read")
 				break
 			}
